@@ -9,7 +9,7 @@ package internal
 // (list, member). "next is the least label above" makes the ring acyclic apart from the sentinel, so
 // a non-empty list has a back element that is a member, and recency order is label order.
 
-func gh_po_in[K comparable, V any](l *List[K, V], e *Entry[K, V]) bool   { panic("ghost") }
+func gh_po_in[K comparable, V any](l *List[K, V], e *Entry[K, V]) bool  { panic("ghost") }
 func gh_po_ord[K comparable, V any](l *List[K, V], e *Entry[K, V]) real { panic("ghost") }
 
 // link accessors as specification functions (t: list type)
@@ -91,7 +91,9 @@ func sp_listOrder[K comparable, V any](l *List[K, V]) bool {
 // region flag <=> membership (policy lists), recorded size and count
 func sp_listAcct[K comparable, V any](l *List[K, V]) bool {
 	return l.count == card(l) && l.len == wsum(l) &&
-		all(func(x *Entry[K, V]) bool { return imp(gh_po_in(l, x), x.flag.Flags&sp_regionBit(l.listType) != 0) })
+		all(func(x *Entry[K, V]) bool {
+			return imp(gh_po_in(l, x), x.flag.Flags&(2|4|64) == sp_regionBit(l.listType))
+		})
 }
 
 // full invariant of a policy-region list
@@ -127,6 +129,11 @@ func (l *List[K, V]) spec_insert(e, at *Entry[K, V]) {
 		return imp(l.listType == WHEEL_LIST, x.meta.prev == old(x.meta.prev) && x.meta.next == old(x.meta.next)) &&
 			imp(l.listType != WHEEL_LIST, x.meta.wheelPrev == old(x.meta.wheelPrev) && x.meta.wheelNext == old(x.meta.wheelNext))
 	}))
+	ensures("frame_lists", all(func(m *List[K, V]) bool {
+		return imp(m != l, m.len == old(m.len) && m.count == old(m.count) && all(func(x *Entry[K, V]) bool {
+			return gh_po_in(m, x) == old(gh_po_in(m, x)) && gh_po_ord(m, x) == old(gh_po_ord(m, x))
+		}))
+	}))
 }
 
 // remove e from the list
@@ -151,4 +158,118 @@ func (l *List[K, V]) spec_remove(e *Entry[K, V]) {
 		return imp(l.listType == WHEEL_LIST, x.meta.prev == old(x.meta.prev) && x.meta.next == old(x.meta.next)) &&
 			imp(l.listType != WHEEL_LIST, x.meta.wheelPrev == old(x.meta.wheelPrev) && x.meta.wheelNext == old(x.meta.wheelNext))
 	}))
+	ensures("frame_lists", all(func(m *List[K, V]) bool {
+		return imp(m != l, m.len == old(m.len) && m.count == old(m.count) && all(func(x *Entry[K, V]) bool {
+			return gh_po_in(m, x) == old(gh_po_in(m, x)) && gh_po_ord(m, x) == old(gh_po_ord(m, x))
+		}))
+	}))
+}
+
+// move e to just after at (e and at in l); members, sizes and flags are unchanged
+func (l *List[K, V]) spec_move(e, at *Entry[K, V]) {
+	requires("inv", sp_listShape(l) && sp_listOrder(l))
+	requires("nodes", gh_po_in(l, e) && sp_node(l, at))
+	if e != at && old(sp_nx(at, l.listType)) != e {
+		set(gh_po_ord(l, e), ifelse(old(sp_nx(at, l.listType)) == &l.root, old(sp_lab(l, at))+1, (old(sp_lab(l, at))+old(sp_lab(l, sp_nx(at, l.listType))))/2))
+	}
+	ensures("members", all(func(x *Entry[K, V]) bool { return gh_po_in(l, x) == old(gh_po_in(l, x)) }))
+	ensures("labels", all(func(x *Entry[K, V]) bool { return imp(x != e, gh_po_ord(l, x) == old(gh_po_ord(l, x))) }))
+	ensures("after_at", imp(e != at, sp_nx(at, l.listType) == e && sp_pv(e, l.listType) == at))
+	ensures("shape", sp_listShape(l))
+	ensures("order", sp_listOrder(l))
+	ensures("sizes", l.len == old(l.len) && l.count == old(l.count))
+	ensures("flags", all(func(x *Entry[K, V]) bool {
+		return x.flag.Flags == old(x.flag.Flags) && x.policyWeight == old(x.policyWeight)
+	}))
+	ensures("frame_other_kind", all(func(x *Entry[K, V]) bool {
+		return imp(l.listType == WHEEL_LIST, x.meta.prev == old(x.meta.prev) && x.meta.next == old(x.meta.next)) &&
+			imp(l.listType != WHEEL_LIST, x.meta.wheelPrev == old(x.meta.wheelPrev) && x.meta.wheelNext == old(x.meta.wheelNext))
+	}))
+	ensures("frame_nonmembers", all(func(x *Entry[K, V]) bool {
+		return imp(!sp_node(l, x), x.meta.prev == old(x.meta.prev) && x.meta.next == old(x.meta.next) && x.meta.wheelPrev == old(x.meta.wheelPrev) && x.meta.wheelNext == old(x.meta.wheelNext))
+	}))
+	ensures("frame_lists", all(func(m *List[K, V]) bool {
+		return imp(m != l, m.len == old(m.len) && m.count == old(m.count) && all(func(x *Entry[K, V]) bool {
+			return gh_po_in(m, x) == old(gh_po_in(m, x)) && gh_po_ord(m, x) == old(gh_po_ord(m, x))
+		}))
+	}))
+}
+
+// the element with the smallest label (most recently pushed to the front), nil iff empty
+func (l *List[K, V]) spec_Front() (r *Entry[K, V]) {
+	requires("inv", sp_listShape(l) && sp_listOrder(l))
+	ensures("nil_iff_empty", (r == nil) == all(func(x *Entry[K, V]) bool { return !gh_po_in(l, x) }))
+	ensures("first", imp(r != nil, gh_po_in(l, r) && sp_pv(r, l.listType) == &l.root && all(func(y *Entry[K, V]) bool { return imp(gh_po_in(l, y), gh_po_ord(l, r) <= gh_po_ord(l, y)) })))
+	return
+}
+
+// the element with the largest label (least recently used end), nil iff empty
+func (l *List[K, V]) spec_Back() (r *Entry[K, V]) {
+	requires("inv", sp_listShape(l) && sp_listOrder(l))
+	ensures("nil_iff_empty", (r == nil) == all(func(x *Entry[K, V]) bool { return !gh_po_in(l, x) }))
+	ensures("last", imp(r != nil, gh_po_in(l, r) && sp_nx(r, l.listType) == &l.root && all(func(y *Entry[K, V]) bool { return imp(gh_po_in(l, y), gh_po_ord(l, y) <= gh_po_ord(l, r)) })))
+	return
+}
+
+func (l *List[K, V]) spec_Len() (n int) {
+	ensures("def", n == int(l.len))
+	return
+}
+
+// remove and return the back element; nil iff the list is empty
+func (l *List[K, V]) spec_PopTail() (r *Entry[K, V]) {
+	requires("inv", sp_listShape(l) && sp_listOrder(l))
+	if r != nil {
+		set(gh_po_in(l, r), false)
+	}
+	ensures("nil_iff_empty", (r == nil) == old(all(func(x *Entry[K, V]) bool { return !gh_po_in(l, x) })))
+	ensures("was_last", imp(r != nil, old(gh_po_in(l, r)) && all(func(y *Entry[K, V]) bool { return imp(old(gh_po_in(l, y)), gh_po_ord(l, y) <= gh_po_ord(l, r)) })))
+	ensures("member", imp(r != nil, !gh_po_in(l, r)) && all(func(x *Entry[K, V]) bool { return imp(x != r, gh_po_in(l, x) == old(gh_po_in(l, x))) }))
+	ensures("labels", all(func(x *Entry[K, V]) bool { return gh_po_ord(l, x) == old(gh_po_ord(l, x)) }))
+	ensures("unlinked", imp(r != nil, sp_nx(r, l.listType) == nil && sp_pv(r, l.listType) == nil))
+	ensures("shape", sp_listShape(l))
+	ensures("order", sp_listOrder(l))
+	ensures("len", imp(r != nil, l.len == old(l.len)-r.policyWeight && l.count == old(l.count)-1) && imp(r == nil, l.len == old(l.len) && l.count == old(l.count)))
+	ensures("flag", imp(r != nil, r.flag.Flags == ifelse(l.listType == WHEEL_LIST, old(r.flag.Flags), old(r.flag.Flags)&^(2|4|64))))
+	ensures("other_flags", all(func(x *Entry[K, V]) bool { return imp(x != r, x.flag.Flags == old(x.flag.Flags)) }))
+	ensures("weights", all(func(x *Entry[K, V]) bool { return x.policyWeight == old(x.policyWeight) }))
+	ensures("frame_other_kind", all(func(x *Entry[K, V]) bool {
+		return imp(l.listType == WHEEL_LIST, x.meta.prev == old(x.meta.prev) && x.meta.next == old(x.meta.next)) &&
+			imp(l.listType != WHEEL_LIST, x.meta.wheelPrev == old(x.meta.wheelPrev) && x.meta.wheelNext == old(x.meta.wheelNext))
+	}))
+	ensures("frame_nonmembers", all(func(x *Entry[K, V]) bool {
+		return imp(!old(sp_node(l, x)), x.meta.prev == old(x.meta.prev) && x.meta.next == old(x.meta.next) && x.meta.wheelPrev == old(x.meta.wheelPrev) && x.meta.wheelNext == old(x.meta.wheelNext))
+	}))
+	ensures("frame_lists", all(func(m *List[K, V]) bool {
+		return imp(m != l, m.len == old(m.len) && m.count == old(m.count) && all(func(x *Entry[K, V]) bool {
+			return gh_po_in(m, x) == old(gh_po_in(m, x)) && gh_po_ord(m, x) == old(gh_po_ord(m, x))
+		}))
+	}))
+	return
+}
+
+// a new, empty list
+func spec_NewList[K comparable, V any](size uint, listType uint8) (l *List[K, V]) {
+	requires("type", sp_validType(listType))
+	setall(gh_po_in(l, nil), false)
+	ensures("fresh", l != nil && fresh(l))
+	ensures("empty", all(func(x *Entry[K, V]) bool { return !gh_po_in(l, x) }) && l.len == 0 && l.count == 0 && l.capacity == size && l.listType == listType)
+	ensures("shape", sp_listShape(l))
+	ensures("order", sp_listOrder(l))
+	return
+}
+
+// the policy-list predecessor, nil at the sentinel
+func (e *Entry[K, V]) spec_PrevPolicy() (r *Entry[K, V]) {
+	flag("holds_policy")
+	requires("linked", e.meta.prev != nil)
+	ensures("def", r == ifelse(sp_isRoot(e.meta.prev.flag.Flags), nil, e.meta.prev))
+	return
+}
+
+func (e *Entry[K, V]) spec_NextPolicy() (r *Entry[K, V]) {
+	flag("holds_policy")
+	requires("linked", e.meta.next != nil)
+	ensures("def", r == ifelse(sp_isRoot(e.meta.next.flag.Flags), nil, e.meta.next))
+	return
 }
